@@ -270,3 +270,32 @@ Definition judge_entry (k : ecase) : verdict :=
   let i := ematch_idx (ec_cfgs k) k 1 in
   if negb (entries_ok (ec_ops k) (ec_obs k)) then V_propfalse (100 + i)
   else if i =? 0 then V_mismatch 0 else (0, i).
+
+(** judge for the direct [CheckProof] differential (multi-signature counting with real secp256k1
+    signatures in the driver).  The property on the implementation's answer is stated with an
+    independent specification of "distinct registered validators with a valid signature":
+    de-duplicated set arithmetic, no loop. *)
+Definition valid_signers (vs sigs : list N) (d : N) : list N :=
+  nodup N.eq_dec
+    (filter (fun a => mem a vs)
+            (flat_map (fun s => match c_recover s d with Some a => [a] | None => [] end) sigs)).
+
+Definition vres_code (v : vres) : N := match v with VOk => 0 | VFalse => 1 | VErr _ => 2 end.
+
+Definition judge_verify (k : N * pdesc * N) : verdict :=
+  let '(bxh, d, obs) := k in
+  let st := pstate_of bxh d in
+  let ib := pd_ibtp d in
+  let v := c_verify st ib (pd_proof d) in
+  let remote := negb (fst (origin ib) =? bxh) in
+  let enough :=
+    match ps_chains st (fst (origin ib)), pd_proof d with
+    | Some app, PdBytes _ (Some bp) =>
+        match a_validators app with
+        | Some vs => (Z.of_nat (List.length (valid_signers vs (bp_sigs bp) (c_digest (ib_id ib) (bp_status bp)))) >? threshold vs)%Z
+        | None => false
+        end
+    | _, _ => false
+    end in
+  if (obs =? 0) && remote && negb enough then V_propfalse 1
+  else if vres_code v =? obs then V_ok else V_mismatch 0.
